@@ -1018,7 +1018,8 @@ class ExportProp(SimpleProp):
     rule = ("templates built from a grammar of atoms (field references of all three levels incl. shadowed fields through embedded reports, "
             "pipelines, if/with/range, unknown fields and functions, unbalanced actions, self-recursive templates) and byte-level mutations of "
             "them, x reports of all levels and two languages, x {string, reader, chunked reader, failing reader, nil reader, nil report}; the "
-            "library's result against text/template called directly on the same report; distinct by op")
+            "library's result against text/template called directly on the same report; 'held': the returned reader is read only after "
+            "four further exports (two succeeding, two failing) on the same report; distinct by op")
     assumptions = ["PARTIAL: text/template itself is not modelled; it is the oracle the harness calls directly",
                    "'nil reader' is the nil interface; a typed nil pointer inside a non-nil io.Reader is a reader that panics (not covered)"]
     trusted_base = TB_COMMON + ["text/template as reference engine inside the harness"]
@@ -1028,7 +1029,7 @@ class ExportProp(SimpleProp):
         n = 1500 if tier == "quick" else 200000
         vecs = ["CVSS:3.1/AV:N/AC:L/PR:N/UI:N/S:C/C:H/I:H/A:H", "CVSS:3.0/AV:L/AC:H/PR:L/UI:R/S:U/C:L/I:N/A:H/E:F/RL:W/RC:R/CR:H/MAV:N/MS:C"]
         ops = []
-        modes = ["string", "reader", "chunked", "nilreader", "nilreport", "fail:0", "fail:3"]
+        modes = ["string", "reader", "chunked", "nilreader", "nilreport", "fail:0", "fail:3", "held", "heldreader"]
         seen_t = []
         for i in range(n):
             k = 1 + rng.below(4)
